@@ -242,12 +242,12 @@ class Scenario:
     def deps(self):
         return self.ti.mk('DepsMut', storage=Opaque('storage'), api=Opaque('api'), querier=Adt('QuerierWrapper', None, [Opaque('q')]))
 
-    def info(self, nfunds=0):
-        sender = self.s('req.sender')
+    def info(self, nfunds=0, prefix='req'):
+        sender = self.s(prefix + '.sender')
         self.assume.append(sender != CONTRACT)        # the contract never calls itself (it emits no wasm messages)
         funds = []
         for k in range(nfunds):
-            funds.append(Coin(self.s('req.fund%d.denom' % k), self.i('req.fund%d.amount' % k, 0, self.b.B * 4)))
+            funds.append(Coin(self.s('%s.fund%d.denom' % (prefix, k)), self.i('%s.fund%d.amount' % (prefix, k), 0, self.b.B * 4)))
         self.shape['nfunds'] = nfunds
         self.funds = funds
         return self.ti.mk('MessageInfo', sender=Addr(sender), funds=funds)
